@@ -3,15 +3,21 @@
 Bounded-exhaustive exploration of `opticomlib.devices.FBG`:
 
 * part `lattice`  : deviation lattice (k <= 2, both tiers) around one
-                    baseline design over 15 axes: sampling rate, input length (powers of two, odd, prime, non-smooth,
+                    baseline design over 18 axes: sampling rate, input length (powers of two, odd, prime, non-smooth,
                     even non-power-of-two), layout (1/2 polarisations, second one zero, n_pol=2, noise forms),
                     input field (content, sample dtype, scale), filtfilt, call form (retH / no retH / print / positional),
                     kL, kL form (whole number of periods | the exact number), vdneff, F, apodisation (names, callable
                     twins in several callable forms, seeded smooth positive callables, three profiles that are not even
                     in z), specification route {fc, landa_D} x {kL, L, N}, scalar type of the design numbers,
                     grid history (how gv was configured, wavelength, slot count, reconfiguration), offset of the
-                    Bragg frequency from gv.f0.
-* part `lattice3` : (thorough) the designs with exactly 3 deviations over the 10 design axes of the first release.
+                    Bragg frequency from gv.f0, effective index neff (default | clearly non-default), fringe visibility
+                    v, design through vdneff | through dneff (= vdneff / v).
+* part `index`    : the design constants that have a default, crossed with EVERY way of specifying the grating:
+                    neff {1.45, 1.0, 2.2, 3.4} x v {1, 0.5, 0.1} x (design through vdneff: {fc, landa_D} x {kL, L, N};
+                    design through dneff: the same six + landa_D with (kL, L) and (kL, N), no index change given) x
+                    {uniform, an asymmetric callable}; thorough: x kL x vdneff x one more apodisation.
+* part `lattice3` : (thorough) the designs with exactly 3 deviations over the 10 design axes of the first release and
+                    neff {1.45, 2.2} (so: non-default neff x route x one more axis).
 * part `limits`   : the box kL {0.1, 0.1+ulp, 8-ulp, 8} x vdneff {1e-5, +ulp, 1e-3-ulp, 1e-3} x F {-20, -20+ulp, 0,
                     20-ulp, 20} with the EXACT numbers (no rounding to whole periods) x apodisations (weak gratings
                     with a peak reflectivity below 1 % included: they must compute).
@@ -59,7 +65,8 @@ NONTRIVIAL = ('designs whose computed spectrum is neither ~0 nor flat (max|H| > 
               'counted per distinct design vector; for the specification patterns: every pattern that reached a '
               'decision (ValueError or a computed H); for the sequences: every ordered pair')
 
-NEFF = 1.45          # library default, never overridden
+NEFF = 1.45          # library default of `neff` (the baseline of the axis `neff`)
+VIS = 1.0            # library default of `v`
 EPS = np.finfo(float).eps
 
 # ---------------------------------------------------------------------------- tolerances (see notes/C16.md)
@@ -85,7 +92,7 @@ def seeded_profiles(seed):
 
 
 # the axes of the first release and how many of their (leading) members it had: the 3-deviation part uses these
-CORE = {'fs': 3, 'n': 5, 'layout': 2, 'inp': 3, 'filtfilt': 2, 'kL': 6, 'vd': 3, 'F': 5, 'apod': 11, 'route': 6}
+CORE = {'fs': 3, 'n': 5, 'layout': 2, 'inp': 3, 'filtfilt': 2, 'kL': 6, 'vd': 3, 'F': 5, 'apod': 11, 'route': 6, 'neff': 2}
 
 
 def axes(seed):
@@ -117,13 +124,22 @@ def axes(seed):
         ('ptype', ['float', 'np64', 'int', 'npint', '0d', 'f32']),
         ('gv', ['sps,R', 'fs', 'R,fs', 'wl1310', 'N', 'reconf', 'sps,fs', 'wl1625']),
         ('off', [0, 5, -7]),                                      # Bragg frequency = gv.f0 + off bins
+        # the design constants that have a default.  neff: 2.2 (LiNbO3-like waveguide), 1.0 (hollow core); the part
+        # `index` adds 3.4 (silicon).  v: fringe visibility in (0, 1]; `index` adds 0.1.
+        ('neff', [NEFF, 2.2, 1.0]),
+        ('v', [VIS, 0.5]),
+        # how the index change is given: vdneff (sigma -> 0) | dneff = vdneff / v (self-coupling sigma = 2 kL / v present)
+        ('design', ['vdneff', 'dneff']),
     ]
 
 
 def _legal(p):
     d = dict(p)
     # the exact kL is not a whole number of periods: only the kL and L spellings describe that grating
-    return not (d['kLform'] == 'exact' and d['route'][1] == 'N')
+    if d['kLform'] == 'exact' and d['route'][1] in ('N', 'kL+N'):
+        return False
+    # landa_D + kL + (L | N) (no index change given) is a way of specifying a dneff design only
+    return not (d['route'][1] in ('kL+L', 'kL+N') and (d['design'] != 'dneff' or d['route'][0] != 'landa_D'))
 
 
 def deviations(ax, k, exactly=None, only=None):
@@ -285,16 +301,39 @@ def set_grid(mode, fs_g, clean=True):
 
 
 # ---------------------------------------------------------------------------- design -> call
-def grating(kL, vd, f_b, exact=False):
-    """the grating of the design.  exact=False: a whole number of periods so that kL, L and N say the same thing;
-    exact=True: kL is used as it is (L = kL lambda / (pi vdneff); N is not a way to describe it)"""
+def grating(kL, vd, f_b, exact=False, neff=NEFF, dn=0.0):
+    """the grating of the design (vd = v * dneff, the "ac" index change; dn = the "dc" index change: 0 for a design
+    through vdneff, vd / v for a design through dneff).  f_b is the frequency of peak reflection; the design wavelength
+    lambda_D = 2 neff Lambda is lambda_b / (1 + dn / neff) (docstring Notes: sigma^ = delta + sigma vanishes there).
+    exact=False: a whole number of periods so that kL, L and N say the same thing (L = N lambda_D / (2 neff),
+    kL = pi vd L / lambda_D); exact=True: kL is used as it is (L = kL lambda_D / (pi vd); N is not a way to describe it)"""
     lam = C0 / f_b
+    if dn:
+        lam = lam / (1.0 + dn / neff)
     if exact:
-        return dict(lam=lam, n_per=None, kL=kL, L=kL * lam / (pi * vd))
-    n_per = max(1, int(round(kL * 2.0 * NEFF / (pi * vd))))
-    kL_eff = pi * vd * n_per / (2.0 * NEFF)
-    L = n_per * lam / (2.0 * NEFF)
-    return dict(lam=lam, n_per=n_per, kL=kL_eff, L=L)
+        return dict(lam=lam, n_per=None, kL=kL, L=kL * lam / (pi * vd), neff=neff, dn=dn, vd=vd)
+    n_per = max(1, int(round(kL * 2.0 * neff / (pi * vd))))
+    kL_eff = pi * vd * n_per / (2.0 * neff)
+    L = n_per * lam / (2.0 * neff)
+    return dict(lam=lam, n_per=n_per, kL=kL_eff, L=L, neff=neff, dn=dn, vd=vd)
+
+
+def design_grating(d, f_b):
+    """the grating of a design point (axes kL, kLform, vd, neff, v, design)"""
+    dn = d['vd'] / d['v'] if d['design'] == 'dneff' else 0.0
+    return grating(d['kL'], d['vd'], f_b, exact=(d['kLform'] == 'exact'), neff=d['neff'], dn=dn)
+
+
+def tol_centre(g):
+    """same-H tolerance when the centre of a dneff design is spelled differently in the two calls (fc | landa_D):
+    lambda_D = (c / fc) / (1 + dneff / neff) is rounded independently by the library and by this module (<= 4 eps
+    relative), which moves the dimensionless detuning delta L = 2 pi neff L (1/lambda - 1/lambda_D) by <= 4 eps pi N
+    (N = 2 neff L / lambda_D periods); |d rho / d(delta L)| of the uniform grating is <= 1 + kL^2 / 8 (7.2 at kL = 8).
+    64 (1 + kL^2) eps pi N bounds that with a factor >= 100 for the group-delay correction that is derived from H.
+    (2e-9 for the baseline, 3e-6 for 10^6 periods at kL = 8; a first-order approximation of the conversion is off by
+    (dneff/neff)^2 pi N >= 1e-4 for the same gratings.)"""
+    n_per = 2.0 * g['neff'] * g['L'] / g['lam']
+    return TOL_SAME + 64.0 * EPS * pi * n_per * (1.0 + g['kL'] ** 2)
 
 
 def _f32_exact(v):
@@ -322,20 +361,34 @@ def wrap(ptype, name, v):
     raise KeyError(ptype)
 
 
-def route_kwargs(route, g, f_b, vd, F=0.0, ptype='float'):
+def route_kwargs(route, g, f_b, vd, F=0.0, ptype='float', v=VIS):
+    """the keyword arguments that describe the grating g by the given route.  neff and v are handed over only when
+    they are not the defaults.  A design through dneff (g['dn'] != 0) gets dneff = vd / v and, as landa_D, its design
+    wavelength; the lengths 'kL+L' / 'kL+N' are the documented combination 3 (landa_D, kL, L | N: no index change given)"""
     centre, length = route
-    kw = {'vdneff': vd, 'F': F}
+    kw = {'F': F}
+    if g['neff'] != NEFF:
+        kw['neff'] = g['neff']
+    if v != VIS:
+        kw['v'] = v
+    if length in ('kL+L', 'kL+N'):
+        if not (g['dn'] and centre == 'landa_D'):
+            raise AssertionError(('route', route, 'describes a dneff design by landa_D only'))
+    elif g['dn']:
+        kw['dneff'] = g['dn']
+    else:
+        kw['vdneff'] = vd
     if centre == 'fc':
         kw['fc'] = f_b
     else:
-        kw['landa_D'] = C0 / f_b
-    if length == 'kL':
+        kw['landa_D'] = g['lam']
+    if 'kL' in length:
         kw['kL'] = g['kL']
-    elif length == 'L':
+    if length.endswith('L') and length != 'kL':
         kw['L'] = g['L']
-    else:
+    if length.endswith('N'):
         kw['N'] = g['n_per']
-    return {k: wrap(ptype, k, v) for k, v in kw.items()}
+    return {k: wrap(ptype, k, val) for k, val in kw.items()}
 
 
 _INT_RANGE = {'int8': (-2 ** 7, 2 ** 8), 'uint8': (0, 2 ** 8), 'int16': (-2 ** 15, 2 ** 16), 'int32': (-2 ** 31, 2 ** 32),
@@ -408,10 +461,16 @@ def freq_axis(n, fs):
 
 def uniform_closed_form(n, fs, f0, g, vd, f_b=None):
     """|H|^2 = sinh^2 g / (cosh^2 g - d^2/k^2), g = sqrt(k^2 - d^2) (complex beyond the band edge);
-    d = 2 pi neff (1/lambda - 1/lambda_D) L, k = pi vdneff L / lambda  (Erdogan 1997, eq. 12-13; docstring Notes)"""
-    f_b = f0 if f_b is None else f_b
+    d = 2 pi neff (1/lambda - 1/lambda_D) L [+ 2 pi dneff L / lambda for a design through dneff: d is the general
+    "dc" self-coupling coefficient sigma^ = delta + sigma of the docstring Notes], k = pi vdneff L / lambda
+    (Erdogan 1997, eq. 12-13; docstring Notes)"""
     f = f0 + freq_axis(n, fs)
-    d = 2.0 * pi * NEFF * (f - f_b) / C0 * g['L']
+    f_d = C0 / g['lam']                  # design frequency; == f_b (bit for bit: lam = C0 / f_b) when dn == 0
+    if not g['dn']:
+        f_d = f0 if f_b is None else f_b
+    d = 2.0 * pi * g['neff'] * (f - f_d) / C0 * g['L']
+    if g['dn']:
+        d = d + 2.0 * pi * g['dn'] * f / C0 * g['L']
     k = pi * vd * g['L'] * f / C0
     gg = np.sqrt((k * k - d * d).astype(complex))
     with np.errstate(all='ignore'):
@@ -524,8 +583,8 @@ def call_fbg(x, kw, apod, filtfilt, form='retH'):
             y, H = FBG(x, apodization=ap, filtfilt=filtfilt, print_params=True, retH=True, **kw)
         return y, H, 1
     if form == 'positional':                    # every argument by position, in the documented order
-        y, H = FBG(x, NEFF, 1.0, kw.get('landa_D'), kw.get('fc'), kw.get('kL'), kw.get('L'), kw.get('N'), None,
-                   kw.get('vdneff'), ap, kw.get('F', 0), False, filtfilt, True)
+        y, H = FBG(x, kw.get('neff', NEFF), kw.get('v', VIS), kw.get('landa_D'), kw.get('fc'), kw.get('kL'), kw.get('L'),
+                   kw.get('N'), kw.get('dneff'), kw.get('vdneff'), ap, kw.get('F', 0), False, filtfilt, True)
         return y, H, 1
     if form == 'noretH':                        # the output of the call WITHOUT retH, H from a second call
         y = FBG(x, apodization=ap, filtfilt=filtfilt, print_params=False, **kw)
@@ -547,6 +606,26 @@ def design_oracles(d, g, gvs, H, tag):
         return viol, dev
     ic = n // 2 + d.get('off', 0)                # bin of the Bragg frequency of the design
     R = np.abs(H) ** 2
+    if g['dn']:
+        # design through dneff.  The profile multiplies sigma too, so only the uniform grating has a closed form: the
+        # formula of the statement with d = sigma^ = delta + sigma (docstring Notes, Erdogan eq. 12-13), peak
+        # tanh^2(k(f_b)) at the frequency where sigma^ = 0, k(f) = pi v dneff L f / c = kL lambda_D / lambda_b there
+        if apod_label(apod) != 'uniform':
+            return viol, dev
+        want = math.tanh(pi * vd * g['L'] * f_b / C0) ** 2
+        got = float(R[ic])
+        dev['bragg_dneff'] = abs(got - want)
+        if not (abs(got - want) <= TOL_BRAGG):
+            viol.append((f'bragg:dneff-design:|H|^2!=tanh^2(k(f_B)):{apod[0]}:uniform',
+                         f'{tag}: |H(f_B)|^2 = {got:.6f}, tanh^2(pi v dneff L / lambda_B) = {want:.6f}'))
+        cf = uniform_closed_form(n, fs, f0, g, vd, f_b)
+        e = np.abs(R - cf)
+        dev['uniform_dneff'] = float(e.max())
+        if not (e.max() <= TOL_UNIFORM):
+            i = int(e.argmax())
+            viol.append(('uniform:dneff-design:|H|^2!=sinh^2/(cosh^2-d^2/k^2),d=delta+sigma',
+                         f'{tag}: bin {i}: |H|^2 = {R[i]:.6f}, closed form {cf[i]:.6f} (max dev {e.max():.3g})'))
+        return viol, dev
     integ = profile_integral(apod)
     want = math.tanh(g['kL'] * integ) ** 2
     got = float(R[ic])
@@ -568,7 +647,7 @@ def design_oracles(d, g, gvs, H, tag):
 def design_tag(d, g):
     return (f"fs={d['fs']}G n={d['n']} {d['layout']} {d['inp']} filtfilt={d['filtfilt']} call={d['call']} kL={g['kL']:.6g}"
             f"({d['kLform']}) vd={d['vd']:g} F={d['F']:g} apod={d['apod']} route={d['route']} ptype={d['ptype']} "
-            f"gv={d['gv']} off={d['off']}")
+            f"gv={d['gv']} off={d['off']} neff={d['neff']:g} v={d['v']:g} design={d['design']}")
 
 
 # ---------------------------------------------------------------------------- case: one design
@@ -592,12 +671,12 @@ def _design_case(case):
     gv = set_grid(d['gv'], d['fs'])
     fs, f0 = float(gv.fs), float(gv.f0)
     f_b = f0 + d['off'] * fs / n
-    g = grating(d['kL'], vd, f_b, exact=(d['kLform'] == 'exact'))
+    g = design_grating(d, f_b)
     x = build_input(d['inp'], d['layout'], n, seed)
     tag = design_tag(d, g)
     viol = []
     snap = snapshot(x)
-    y, H, calls = call_fbg(x, route_kwargs(route, g, f_b, vd, F, d['ptype']), apod, d['filtfilt'], d['call'])
+    y, H, calls = call_fbg(x, route_kwargs(route, g, f_b, vd, F, d['ptype'], d['v']), apod, d['filtfilt'], d['call'])
     v, info = check_call(snap, y, H, tag)
     viol += v
     # diagnostic only (the statement does not say that the operand stays untouched): was the input object written to?
@@ -610,7 +689,7 @@ def _design_case(case):
         tw = twin(apod)
         if tw is not None:
             snap2 = snapshot(x)                     # the same object is handed over again
-            y2, H2, c2 = call_fbg(x, route_kwargs(route, g, f_b, vd, F, d['ptype']), tw, d['filtfilt'])
+            y2, H2, c2 = call_fbg(x, route_kwargs(route, g, f_b, vd, F, d['ptype'], d['v']), tw, d['filtfilt'])
             calls += c2
             H2 = np.asarray(H2)
             e = float(np.abs(H2 - H).max()) if H2.shape == np.shape(H) else float('inf')
@@ -621,24 +700,32 @@ def _design_case(case):
             else:
                 viol += check_call(snap2, y2, H2, tag + ' [twin call, same input object]')[0]
         if route != ('fc', 'kL'):
-            y3, H3, c3 = call_fbg(x, route_kwargs(('fc', 'kL'), g, f_b, vd, F), apod, d['filtfilt'])
+            # the same grating (same neff, v, index change) specified by fc and kL
+            y3, H3, c3 = call_fbg(x, route_kwargs(('fc', 'kL'), g, f_b, vd, F, v=d['v']), apod, d['filtfilt'])
             calls += c3
             H3 = np.asarray(H3)
             e = float(np.abs(H3 - H).max()) if H3.shape == np.shape(H) else float('inf')
-            dev['route'] = e
-            if not (e <= TOL_SAME):
-                viol.append((f'route:{route[0]},{route[1]}!=fc,kL',
-                             f'{tag}: max|H({route}) - H(fc,kL)| = {e:.3g} > {TOL_SAME} (N={g["n_per"]} periods, L={g["L"]:.6g} m)'))
+            # a dneff design whose centre is spelled landa_D: the conversion of the centre is rounded (tol_centre)
+            tol = tol_centre(g) if (g['dn'] and route[0] != 'fc') else TOL_SAME
+            dev['route_dneff' if g['dn'] else 'route'] = e
+            if not (e <= tol):
+                viol.append((f'route:{"dneff-design:" if g["dn"] else ""}{route[0]},{route[1]}!=fc,kL',
+                             f'{tag}: max|H({route}) - H(fc,kL)| = {e:.3g} > {tol:.3g} (N={g["n_per"]} periods, L={g["L"]:.6g} m)'))
     nt = False
     if ok_shape and info['maxH'] > 1e-2 and info['maxH'] - info['minH'] > 1e-3:
-        nt = ('design',) + tuple(v for k, v in pt if k not in ('inp', 'layout', 'filtfilt', 'call', 'ptype', 'gv'))
+        nt = ('design',) + tuple(v_ for k, v_ in pt if k not in ('inp', 'layout', 'filtfilt', 'call', 'ptype', 'gv'))
     dev['maxH'] = info.get('maxH', float('nan'))
     dev['filt'] = info.get('filt_err', float('nan'))
     obs = _sha(np.asarray(H), np.asarray(y.signal)) if ok_shape else 'BAD-SHAPE'
     weak = bool(ok_shape and F == 0 and math.tanh(g['kL'] * profile_integral(apod)) ** 2 < 0.01)
-    return res(viol=viol, obs=obs, nontrivial=nt, stats={'fbg_calls': calls, 'F0_peak_checks': int(F == 0 and ok_shape),
-                                                         'uniform_spectrum_checks': int('uniform' in dev),
-                                                         'twin_checks': int('twin' in dev), 'route_checks': int('route' in dev),
+    index_dev = int(d['neff'] != NEFF or d['v'] != VIS)
+    routed = 'route' in dev or 'route_dneff' in dev
+    return res(viol=viol, obs=obs, nontrivial=nt, stats={'fbg_calls': calls, 'F0_peak_checks': int('bragg' in dev or 'bragg_dneff' in dev),
+                                                         'uniform_spectrum_checks': int('uniform' in dev or 'uniform_dneff' in dev),
+                                                         'twin_checks': int('twin' in dev), 'route_checks': int(routed),
+                                                         'nondefault_neff_or_v_cases': index_dev,
+                                                         'nondefault_neff_or_v_route_checks': int(index_dev and routed),
+                                                         'dneff_design_cases': int(bool(g['dn'])),
                                                          'odd_length_cases': int(n % 2),
                                                          'weak_gratings_peak_below_1pct': int(weak),
                                                          'non_complex_input_cases': int(not np.iscomplexobj(snap[0])),
@@ -666,6 +753,8 @@ def seq_menu(seed):
         ('fs20', {'fs': 20}),
         ('wl1310', {'gv': 'wl1310'}),
         ('2pol-int', {'layout': '2pol', 'inp': 'int64'}),
+        ('neff2.2', {'neff': 2.2}),                                  # a sweep of the effective index on one object
+        ('dneff,v0.5', {'design': 'dneff', 'v': 0.5, 'route': ('landa_D', 'N')}),
     ]
 
 
@@ -683,14 +772,14 @@ def seq_case(case):
         g_ = set_grid(d['gv'], d['fs'], clean=False)          # reconfigured, never cleaned, between the calls
         fs, f0 = float(g_.fs), float(g_.f0)
         f_b = f0
-        g = grating(d['kL'], d['vd'], f_b)
+        g = design_grating(d, f_b)
         if x is None:
             key = (d['inp'], d['layout'], d['n'])
             if key not in inputs:
                 inputs[key] = build_input(d['inp'], d['layout'], d['n'], seed)
             x = inputs[key]                                    # ONE object per (field, layout, length), shared by the calls
         snap = snapshot(x)
-        y, H, calls = call_fbg(x, route_kwargs(d['route'], g, f_b, d['vd'], d['F']), d['apod'], d['filtfilt'])
+        y, H, calls = call_fbg(x, route_kwargs(d['route'], g, f_b, d['vd'], d['F'], v=d['v']), d['apod'], d['filtfilt'])
         return dict(d=d, g=g, gvs=(fs, f0, f_b), snap=snap, y=y, H=np.asarray(H))
 
     viol = []
@@ -723,9 +812,12 @@ SPEC_NAMES = ['landa_D', 'fc', 'kL', 'L', 'N', 'dneff', 'vdneff']
 SPEC_SETS = [
     dict(fs=100, kL=1.0, vd=1e-4, ptype='float'),       # quick + thorough
     dict(fs=100, kL=1.0, vd=1e-4, ptype='np64'),        # quick + thorough: numpy scalars
+    dict(fs=100, kL=1.0, vd=1e-4, ptype='float', neff=2.2, v=0.5),   # quick + thorough: neff and v given, not the defaults
     dict(fs=400, kL=4.0, vd=1e-3, ptype='float'),       # thorough
     dict(fs=400, kL=4.0, vd=1e-3, ptype='0d'),          # thorough: 0-d arrays
+    dict(fs=400, kL=4.0, vd=1e-3, ptype='np64', neff=3.4, v=0.1),    # thorough
 ]
+SPEC_QUICK = 3
 DOCUMENTED = set()
 for _c in ('fc', 'landa_D'):
     for _i in ('dneff', 'vdneff'):
@@ -761,10 +853,16 @@ def spec_case(case):
     vs = SPEC_SETS[si]
     gv = gv_reset(sps=int(vs['fs']), R=1e9)
     fs, f0 = float(gv.fs), float(gv.f0)
-    g = grating(vs['kL'], vs['vd'], f0)
-    vals = dict(landa_D=C0 / f0, fc=f0, kL=g['kL'], L=g['L'], N=g['n_per'], dneff=vs['vd'], vdneff=vs['vd'])
+    neff, vis = vs.get('neff', NEFF), vs.get('v', VIS)
+    g = grating(vs['kL'], vs['vd'], f0, neff=neff)
+    # one consistent value set: vdneff = v * dneff, N periods of lambda_D / (2 neff) = L, kL = pi vdneff L / lambda_D
+    vals = dict(landa_D=C0 / f0, fc=f0, kL=g['kL'], L=g['L'], N=g['n_per'], dneff=vs['vd'] / vis, vdneff=vs['vd'])
     present = [nm for i, nm in enumerate(SPEC_NAMES) if (mask >> i) & 1]
     kw = {nm: wrap(vs['ptype'], nm, vals[nm]) for nm in present}
+    if neff != NEFF:
+        kw['neff'] = wrap(vs['ptype'], 'neff', neff)
+    if vis != VIS:
+        kw['v'] = wrap(vs['ptype'], 'v', vis)
     cls, why = spec_class(present)
     n = 256
     x = build_input('impulse', '2pol', n, 0)
@@ -849,6 +947,15 @@ def run(ctx):
                'scipy.integrate.quad is trusted for the integral of the reference profile; '
                'the closed forms are Erdogan 1997 eq. 12-13 with k = pi vdneff L / lambda as in the docstring Notes; '
                'tolerances: passivity 5e-3, Bragg peak 2e-3, uniform spectrum 1e-2 (RK45 rtol = 1e-3), same-H 1e-9')
+    ctx.assume('neff and v are design parameters ("every valid design parameter combination"): the closed forms are evaluated '
+               'with the neff of the design (d = 2 pi neff (1/lambda - 1/lambda_D) L, N periods of lambda_D / (2 neff)); a design '
+               'through vdneff does not involve v.  A design through dneff has the given vdneff = v dneff and, per the docstring '
+               'Notes, sigma = 2 pi dneff / lambda, centre (1 + dneff/neff) lambda_D: its equivalent specifications (fc | the '
+               'corresponding landa_D; kL | L | N; landa_D with kL and L | N) must give the same response (1e-9; when the centre '
+               'is spelled differently: + 64 (1 + kL^2) eps pi N for the independently rounded conversion of the centre); for '
+               'the uniform profile the closed form of the statement is applied with d = sigma^ = delta + sigma (Erdogan eq. '
+               '12-13, the source of the formula), under keys of their own (`...:dneff-design:...`); apodised dneff designs have '
+               'no closed form and are checked for passivity / filtering / energy / equivalence only')
     ctx.assume("the reference profile of 'rcos' is 1/2 (1 + cos 2 pi z) (utils.rcos(z, alpha=1, T=2), tapers to zero at the ends); "
                "the docstring's cos(pi z) is treated as a documentation slip (DESIGN 5/C16)")
     ctx.assume('a noise component of the input: what becomes of it is outside the statement (no value of it is asserted); the '
@@ -916,6 +1023,22 @@ def run(ctx):
     cases = [(seed, p) for p in cor]
     absorb(ctx.pmap('corners', design_case, cases, horizon=240.0, chunk=1), cases)
 
+    # the design constants with a default, crossed with every way of specifying the grating
+    six = [r for _, v_ in ax if _ == 'route' for r in v_]
+    ways = [('vdneff', r) for r in six] + [('dneff', r) for r in six + [('landa_D', 'kL+L'), ('landa_D', 'kL+N')]]
+    idx_neff, idx_v = [NEFF, 1.0, 2.2, 3.4], [VIS, 0.5, 0.1]
+    idx_ap = [('name', 'uniform'), ('tilt', 0.8)] + ([] if ctx.quick else [('name', 'gaussian')])
+    idx_kv = [(1.0, 1e-4, 100)] + ([] if ctx.quick else [(4.0, 1e-4, 100), (1.0, 1e-3, 400), (4.0, 1e-3, 400)])
+    idx = [point(ax, fs=fs_, kL=kL, vd=vd, apod=ap, neff=ne, v=vi, design=de, route=ro)
+           for (kL, vd, fs_), ap, ne, vi, (de, ro) in itertools.product(idx_kv, idx_ap, idx_neff, idx_v, ways)]
+    ctx.rule(f'C16 index: neff {idx_neff} x v {idx_v} x the {len(ways)} ways of specifying the grating (design through vdneff: '
+             f'{{fc, landa_D}} x {{kL, L, N}}; design through dneff = vdneff / v: the same six and landa_D with (kL, L) | (kL, N), '
+             f'no index change given) x apodisation {idx_ap} x (kL, vdneff, fs) {idx_kv} = {len(idx)} designs at n=256, a whole '
+             f'number of periods; every design is compared with the closed forms computed with ITS neff and with the same '
+             f'grating specified by (fc, kL)')
+    cases = [(seed, p) for p in idx]
+    absorb(ctx.pmap('index', design_case, cases, horizon=180.0, chunk=1), cases)
+
     m = len(seq_menu(seed))
     sq = [(seed, ia, ib) for ib in range(m) for ia in range(m) if ia != ib]
     ctx.rule(f'C16 seq: every ordered pair (a, b) of the {m} calls {[nm for nm, _ in seq_menu(seed)]} run in one process as '
@@ -923,7 +1046,7 @@ def run(ctx):
              f'cleaned in between: {len(sq)} sequences, 3 calls each; every call checked on its own, H(b\') == H(b)')
     ctx.pmap('seq', seq_case, sq, horizon=120.0)
 
-    nsets = 2 if ctx.quick else len(SPEC_SETS)
+    nsets = SPEC_QUICK if ctx.quick else len(SPEC_SETS)
     spec = [(si, m_) for si in range(nsets) for m_ in sorted(range(128), key=lambda m_: (bin(m_).count('1'), m_))]
     ctx.rule(f'C16 spec: all 2^7 presence/absence patterns of {SPEC_NAMES} for {nsets} value set(s) {SPEC_SETS[:nsets]}; under-determined '
              f'(no centre, or fewer than two of index-change / kL / length) must raise ValueError; the 14 combinations listed in '
